@@ -137,7 +137,8 @@ def run_impl(case):
                     sel.fit(X, warm_start=(si > 0))
                 else:
                     sel.fit(X, Y, warm_start=(si > 0))
-                out["stages"].append(dict(sel=[int(i) for i in sel.selected_idx_], nsel=int(sel.n_selected_)))
+                out["stages"].append(dict(sel=[int(i) for i in sel.selected_idx_], nsel=int(sel.n_selected_),
+                                          X_current=np.array(sel.X_current_, dtype=float).tolist()))
         except Exception as e:      # noqa
             out["error"] = "%s: %s" % (type(e).__name__, str(e)[:200])
             return out
@@ -376,20 +377,21 @@ def refresh_hints(case, sel, t, hints, rcond=1e-12):
 KEY_F28 = "warm start re-orthogonalises by rounding noise: absolute tolerance guard on large-valued X"
 
 
-def abs_guard_fires(case, sel):
+def abs_guard_fires(case, res):
     """True when, at a warm start, the residual of an already selected item exceeds the ABSOLUTE
     tolerance although it is negligible relative to the item (finding F28: the unrepaired guard of
-    _continue_greedy_search then re-orthogonalises by normalised rounding noise)."""
-    if case["re"] == 0 or len(case["stages"]) < 2:
+    _continue_greedy_search then re-orthogonalises by normalised rounding noise).  Evaluated on the
+    implementation's own X_current_ as it was before the warm start."""
+    if case["re"] == 0 or len(case["stages"]) < 2 or len(res.get("stages", [])) < 1:
         return False
     X = np.array(case["X"], dtype=float)
-    t = case["stages"][0]
-    Xt = m_resid(X, sel[:t], case["axis"], case["re"])
-    for c in sel[:t]:
-        a = np.linalg.norm(np.take(Xt, [c], axis=case["axis"]))
-        b = np.linalg.norm(np.take(X, [c], axis=case["axis"]))
-        if a > TOL and a <= TOL * b:
-            return True
+    for st in res["stages"][:-1] if len(res["stages"]) == len(case["stages"]) else res["stages"]:
+        Xt = np.array(st["X_current"], dtype=float)
+        for c in st["sel"]:
+            a = np.linalg.norm(np.take(Xt, [c], axis=case["axis"]))
+            b = np.linalg.norm(np.take(X, [c], axis=case["axis"]))
+            if a > TOL and a <= 1e-9 * b:
+                return True
     return False
 
 
